@@ -220,7 +220,7 @@ class Spec:
         if lab == "l:badpush":
             st.badpush = True
             parent = min(sid for sid, s in h.m.streams.items() if not s.local_init and s.state in ("open", "hc_remote"))
-            o = h.api("push_stream", parent, st.next_even, H.ni([x for x in H.REQ if x[0] != b":path"]))
+            o = h.api("push_stream", parent, (h.m.hi_local or 0) + 2, H.ni([x for x in H.REQ if x[0] != b":path"]))
             if o.kind == "ok" or o.raw:
                 bad("invalid-push-accepted", "push_stream with a request list lacking :path -> %s" % o.brief())
                 st.dead = True
